@@ -67,7 +67,7 @@ func checkC03(c *Check) {
 	}
 	specs := tokenSuite()
 	if c.Tier == "thorough" {
-		specs = append(specs, thoroughSpecs(c.Seed, 400)...)
+		specs = append(specs, thoroughSpecs(c.Seed, 2400)...)
 	}
 	rs, probs := runSuite(r, specs, []modelOpts{{Ast: true}})
 	for _, p := range probs {
@@ -130,7 +130,7 @@ func checkC13(c *Check) {
 	}
 	specs13 := tokenSuite()
 	if c.Tier == "thorough" {
-		specs13 = append(specs13, thoroughSpecs(c.Seed, 300)...)
+		specs13 = append(specs13, thoroughSpecs(c.Seed, 1600)...)
 	}
 	rs, probs := runSuite(r, specs13, []modelOpts{{Ast: true}, {Ast: false}, {Ast: true, Inline: true}})
 	for _, p := range probs {
